@@ -1448,7 +1448,13 @@ fn pure_prim(name: &'static str, a: &[Val]) -> Result<Val, Stop> {
         "*" => {
             let mut s = BigInt::from(1);
             for x in a {
-                s *= int_arg(x)?;
+                let y = int_arg(x)?;
+                // the step budget does not bound the size of numbers: repeated squaring
+                // doubles the digits per step
+                if s.bits() + y.bits() > (1 << 16) {
+                    return undet("*: product too large for the reference");
+                }
+                s *= y;
             }
             Val::Int(s)
         }
